@@ -2242,9 +2242,10 @@ def run(ctx):
     R.expect('G1-stringtable-access-is-at', 5)          # decode_info, build_tag_list, decode_relation, dense tags, dense user
     R.expect('G1-out_of_range-mapped', 2)
     R.expect('G2-stringtable-entry-length', 1)
-    # 3 add_tag overloads x key/value, add_role, add_user, add_text (append); 2 set_user(ptr,len) raw copies; narrowing casts in
-    # add_role, add_user and the 4 set_user(const char*) / set_user(const std::string&) overloads
-    R.expect('G3-builder-string-length-checked', 17)
+    # required copies only: 3 add_tag overloads x key/value, add_role, add_user, add_text (append) + 2 set_user(ptr,len) raw copies.
+    # The #narrow16 instances (4 on today's tree) exist only where the code narrows a length; a fix that removes a cast must not
+    # break the floor, so they are not counted in it.
+    R.expect('G3-builder-string-length-checked', 11)
     R.expect('G4-blob-sizes-bounded', 7)
     R.expect('G5-o5m-section-end-checked', 2)           # decode_way, decode_relation
     R.expect('G5-o5m-reference-table-bounds', 6)
